@@ -1695,3 +1695,32 @@ Section MPbase.
     - apply copy_to_ok; auto using wf_mmul.
   Qed.
 End MPbase.
+
+(* ------------------------------------------------------------------------------------------ *)
+(** * The bound [63 <= cutoff] of the internal routines is needed: FINDING.
+    _mzd_addmul (strassen.c:667) is called by _mzd_trsm_upper_left (triangular.c:503) with the
+    caller's cutoff, not normalised.  For 1 <= cutoff <= 62 the mult-doubling loop can stop with
+    mult larger than one dimension: here m = n = 4096, k = 4095, cutoff = 32 give mult = 4096,
+    mmm = nnn = 2048 but kkk = 0; the quadrant A11 is a window with 2048 rows and 0 columns, the
+    recursive call takes the base case (closer(0,..)), sees a windowed operand and calls
+    mzd_copy(NULL, A11), whose row loop writes word -1 of a matrix without data (mzd.c:1373-1380).
+    The model returns [Err OOB]; the library segfaults (probe: _mzd_addmul_even on 4096x4095x4096 with
+    cutoff 32, and the public mzd_trsm_upper_left(U, B, 32) with U 8191x8191, B 8191x4096; cutoff 64
+    and 0 are fine). *)
+From M4 Require Alg.StrassenGen.
+
+Definition base_ref (C A B : mat) (clr : bool) : res mat := Ok (if clr then mmul A B else madd C (mmul A B)).
+Lemma base_ref_correct : base_correct base_ref.
+Proof. intros C A B clr _ _ _ _ _ _ _ _ _. reflexivity. Qed.
+
+Theorem addmul_small_cutoff_refuted :
+  exists cutoff C A B, 0 < cutoff < 63 /\ wf C /\ wf A /\ wf B /\ nc A = nr B /\ nr C = nr A /\ nc C = nc B /\
+    0 < nr A /\ 0 < nc A /\ 0 < nc B /\
+    StrassenGen._mzd_addmul_gen base_ref 2048 cutoff false false C A B = Err OOB.
+Proof.
+  exists 32, (mzero (64 * 64) (64 * 64)), (mzero (64 * 64) (64 * 64 - 1)), (mzero (64 * 64 - 1) (64 * 64)).
+  split; [lia|]. split; [apply wf_mzero|]. split; [apply wf_mzero|]. split; [apply wf_mzero|].
+  split; [reflexivity|]. split; [reflexivity|]. split; [reflexivity|].
+  split; [cbn [nr mzero]; lia|]. split; [cbn [nc mzero]; lia|]. split; [cbn [nc mzero]; lia|].
+  vm_compute. reflexivity.
+Qed.
